@@ -122,6 +122,19 @@ std::string round_trip_plain(std::string const& org, std::string const& dev, int
         return write_read<Tag, Img, CB>(dev, v, path, show_bytes, info); }
     return "bad-org"; }
 
+// dsts: the same view written through every kind of destination; the bytes through the file name, and for the others whether
+// they are the same bytes (the property: the result does not depend on the destination)
+template <typename Tag, typename Img, int CB>
+std::string destinations(int w, int h, bytes const& px, std::string const& path) {
+    Img img(w, h); fill<CB>(gil::view(img), px);
+    bytes ref = write_dev<Tag>("fn", gil::view(img), path, Tag());
+    std::string r = hex(ref);
+    for (char const* dev : {"fp", "ss", "of"}) {
+        bytes b = write_dev<Tag>(dev, gil::view(img), path, Tag());
+        size_t k = 0; while (k < b.size() && k < ref.size() && b[k] == ref[k]) ++k;
+        r += std::string(" | ") + dev + (b == ref ? " same" : " differs:" + std::to_string(k)); }
+    return r; }
+
 // run f in a forked child: undefined behaviour there (sanitizer abort, signal) becomes the observation `ub`
 template <typename F> std::string guarded(F f) {
     int fd[2]; if (pipe(fd) != 0) return "harness-pipe-error";
